@@ -34,6 +34,9 @@ CHECKS = {
  "C19": ("exploration", "runtime monitor: exhaustive API histories over an interpreter family (MakeSymbol/GenSymbol/Duplicate/Clone) against a name<->number bijection, plus script-level histories",
          "Every sequence of 4 (quick) / 5 (thorough) operations over three family members and a name pool of generated-looking names is executed against the real symbol table; each returned symbol is entered into a global bijection and generated symbols must be new; script histories check (== a b) and hash-key identity.",
          "Trusted: the bijection bookkeeping of the monitor; sequences addressing a not-yet-existing member are cut.", "DESIGN.md §4.C19"),
+ "C06": ("exploration", "runtime monitor: (infixExpand {...}) tree vs independent precedence-climbing parse of the same tokens; twin evaluation block vs prefix form; semantic programs vs Go-computed expectations",
+         "All operator sequences of length 1-2 (quick) / 1-3 (thorough) over the 18 binary operators in three spacings with rotating operand kinds, plus random long sequences, are expanded by the real Pratt parser and compared with an independent parse under the documented table; each block is also evaluated against its prefix form in a twin interpreter; statement lists, if/else, all for-header shapes, labelled break/continue and indexed assignment are checked against closed-form expectations.",
+         "Trusted: the documented binding-power table as transcribed in the harness; printed operand forms taken from the unchanged tree; ambiguous sign spellings excluded.", "DESIGN.md §4.C06"),
 }
 
 NA_REASON = {}
